@@ -159,7 +159,9 @@ func ruleC01Kind(p *Prog, r *Result) {
 	pr.all("scalar parent, different child: child replaces parent", cons(append(scalarDst, neq)...), "returns src", returns(src))
 	// the scalar case must actually compare the two values
 	pr.some("scalar parent: useless-override test compares child with parent", cons(scalarDst...), "guard src == dst present", "no path of the scalar case compares the child value with the parent value",
-		func(pa *Path) bool { return guardPol(pa, "eq", mOr(mIs(dst), mIs(src)), TM(mOr(mIs(dst), mIs(src)))) != 0 })
+		func(pa *Path) bool {
+			return guardPol(pa, "eq", mOr(mIs(dst), mIs(src)), TM(mOr(mIs(dst), mIs(src)))) != 0
+		})
 	// (map, nil) -> dst ; (map, scalar|list): empty map -> src, else ErrInvalidType
 	pr.all("map parent, null child: parent kept", cons(aKind(dst, "map", false), aKind(src, "nil", false)), "returns dst, no effects", returns(dst))
 	mapOther := []Atom{aKind(dst, "map", false), aKind(src, "map", true), aKind(src, "nil", true)}
@@ -485,7 +487,9 @@ func ruleC01List(p *Prog, r *Result) {
 	})
 	matchDel := mCall("bkl.match", TM(func(t *T) bool { return t.Op == "elem" }), TM(delVal))
 	pr.all("list $delete: matching parent entries are dropped, others kept in order",
-		selectPaths(delPaths, func(pa *Path) bool { return extraKeys(pa) == -1 && guardPol(pa, "truth", matchDel, nil) != 0 && pa.End == "iter" }),
+		selectPaths(delPaths, func(pa *Path) bool {
+			return extraKeys(pa) == -1 && guardPol(pa, "truth", matchDel, nil) != 0 && pa.End == "iter"
+		}),
 		"an entry is dropped iff match(entry, pattern); otherwise it is kept unchanged", func(pa *Path) (bool, string) {
 			m := guardPol(pa, "truth", matchDel, nil)
 			var kept *T
@@ -848,7 +852,9 @@ func ruleDeepClone(p *Prog, r *Result) {
 		if res.Op != "out" {
 			return false, "the result is not produced by a decoder: " + res.String()
 		}
-		enc := res.Find(func(x *T) bool { return x.Op == "call" && strings.HasSuffix(x.Name, ".Marshal") && len(x.Args) > 0 && x.Args[0].IsParam("v") })
+		enc := res.Find(func(x *T) bool {
+			return x.Op == "call" && strings.HasSuffix(x.Name, ".Marshal") && len(x.Args) > 0 && x.Args[0].IsParam("v")
+		})
 		if len(enc) == 0 {
 			return false, "what is decoded is not an encoding of the argument"
 		}
